@@ -21,6 +21,9 @@ def model_check(ctx):
     else:
         ctx.mc("Brush", "MC_Brush_t.cfg", label="all {-1,+1} designs on grids up to 4x4 and 2x5 x brushes d1..d4", timeout=3 * 3600)
         ctx.mc("Brush", "MC_Brush_t3.cfg", label="all {-1,0,+1} designs on 3x3 x brushes d2, d3")
+    # Case2 is not reachable on the small grids above: a 4x5 witness design and its 20 one-pixel variations
+    ctx.mc("Brush", "MC_Brush_c2.cfg", label="Case2 witnesses: 21 designs on 4x5, brush d2, all invariants")
+    ctx.mc_negative("Brush", "MC_Brush_c2neg.cfg")  # 'NeverCase2' must be violated: Case2 is reachable
     ctx.mc_negative("Brush", "MC_Brush_neg.cfg")  # touches may paint over pixels of the other kind
     ctx.assumptions += [
         "circular brushes circular_brush(d), d in {1, 2, 2.5, 3, 4, 5}; the offsets TLC uses are read from the array the implementation built",
